@@ -198,7 +198,8 @@ def run(ck):
     nheavy = {"quick": 3, "thorough": 60}[ck.tier]
     jobs = [("random", os.path.join(ck.work, "ctl.jsonl"), {"VERIF_N": str(n), "VERIF_NBIG": str(nbig), "VERIF_NHEAVY": str(nheavy)}),
             ("typed", os.path.join(ck.work, "typed.jsonl"), {"VERIF_N": str(ntyped)}),
-            ("witness", os.path.join(ck.work, "witness.jsonl"), {})]
+            ("witness", os.path.join(ck.work, "witness.jsonl"), {}),
+            ("scenarios", os.path.join(ck.work, "scenarios.jsonl"), {})]
     # compile once, then run the three modes in parallel (the witness may hang: short timeout)
     rc, log = vlib.sh(["go", "test", "-vet=off", "-c", "-o", os.path.join(mod, "rt.test"), "./rt"], cwd=mod, env=vlib.goenv(), timeout=600)
     if rc != 0:
@@ -209,12 +210,12 @@ def run(ck):
         mode, out, extra = j
         env = vlib.goenv({"VERIF_OUT": out, "VERIF_MODE": mode, "VERIF_SEED": str(ck.seed), "VERIF_TIER": ck.tier})
         env.update(extra)
-        to = 60 if mode == "witness" else (150 if ck.tier == "quick" else 3000)
+        to = 60 if mode in ("witness", "scenarios") else (150 if ck.tier == "quick" else 3000)
         rc, log = vlib.sh([os.path.join(mod, "rt.test"), "-test.run", "TestVerif", "-test.timeout", "%ds" % to],
                           cwd=os.path.join(mod, "rt"), env=env, timeout=to + 30)
         return mode, out, rc, log
 
-    with ThreadPoolExecutor(3) as ex:
+    with ThreadPoolExecutor(4) as ex:
         results = list(ex.map(one, jobs))
 
     hists, typed, viols, oracle_only = [], [], [], []
@@ -223,11 +224,21 @@ def run(ck):
             # the recorded defect can also show up as an endless loop in the real code
             ck.violation("mapclear-keeps-stale-overflow-links", "witness history does not terminate / crashes: " + log[-300:], {"mode": mode})
             continue
-        if rc != 0 or not os.path.exists(out):
+        if mode == "scenarios" and rc != 0:
+            # a deterministic scenario crashed or hung the real code: what was recorded before is
+            # still read (violations are written as they are found), and the crash itself is a failure
+            ck.violation("scenario-crashes-map-runtime", "the deterministic scenarios (same-size growth, clear, refill) crash or hang the "
+                         "real map code: " + log[-400:], {"mode": mode, "log": log[-2500:]})
+        elif rc != 0 or not os.path.exists(out):
             ck.correspondence_broken("harness:" + mode, log[-2500:])
             continue
+        if not os.path.exists(out):
+            continue
         for line in open(out):
-            r = json.loads(line)
+            try:
+                r = json.loads(line)
+            except ValueError:
+                continue
             if r["kind"] == "hist" and r.get("nocoq"):
                 oracle_only.append(r)
             elif r["kind"] == "hist":
@@ -276,6 +287,15 @@ def run(ck):
         fidelity_bad = len(bad_full)
         ck.log("model/implementation: %d histories differ in internal state or iteration order, %d in API-level results; "
                "layer-1 model differs on %d, layer-2 model on %d" % (len(bad_full), len(bad_obs), len(bad_simple), len(bad_grow)))
+        # deterministic scenarios: B, noverflow, flags (sameSizeGrow ...), nevacuate must agree too
+        scen = [i for i in bad_full if sub[i]["class"].startswith("scenario")]
+        if scen:
+            first = sub[scen[0]]
+            ck.violation("scenario-internal-state-differs-from-model",
+                         "history %s: the real map's internal state (B, noverflow, flags, nevacuate, growing, count) or iteration order "
+                         "differs from Model.v in %d deterministic scenario(s)" % (first["class"], len(scen)),
+                         {"class": first["class"], "config": {k: first.get(k) for k in ("nil", "hint", "refl", "upd", "seed", "ptr")},
+                          "ops": first["ops"], "res": first["res"]})
         for name, idxs, pool in (("C06.Model/run_history", bad_obs, sub), ("C06.Simple/srun", bad_simple, sub_s),
                                  ("C06.Grow/grun", bad_grow, sub_s)):
             if idxs:
